@@ -70,7 +70,7 @@ Proof.
   - eapply translate_special_inv; eauto.
   - inv_tac H.
   - inv_tac H.
-  - destruct (Tables.ind i); [|discriminate]. destruct v; try discriminate;
+  - destruct (Tables.ind i); [|discriminate]. destruct v as [| | | |? ? ? ? [|]| | | |]; try discriminate;
       try (destruct r; [eapply translate_indexed_inv; eauto | discriminate]); inv_tac H.
   - eapply translate_indexed_inv; eauto.
   - inv_tac H.
